@@ -16,7 +16,8 @@ use std::collections::{BTreeMap, BTreeSet};
 pub enum Step {
   FastCheck,
   /// edit declaration `decl` of package `pkg`: 0 toggle explicitness
-  /// (annotated <-> non-inferable), 1 toggle `export`, 2 change its kind
+  /// (annotated <-> non-inferable), 1 toggle `export`, 2 change its kind,
+  /// 3 toggle whether the root module imports the package itself
   Edit { pkg: u8, decl: u16, what: u8 },
 }
 
@@ -25,6 +26,14 @@ pub struct Case {
   pub pkgs: Vec<RawPackage>,
   pub cross_star: bool,
   pub history: Vec<Step>,
+  /// how the first package depends on the second when `cross_star` is off:
+  /// 0 not at all, 1 by-name re-export of one of its exports, 2 an exported
+  /// alias of an imported type
+  #[serde(default)]
+  pub cross_kind: u8,
+  /// packages the root module does not import itself at the start (bit mask)
+  #[serde(default)]
+  pub root_skip: u8,
 }
 
 pub fn spec() -> PropSpec<Case> {
@@ -32,17 +41,19 @@ pub fn spec() -> PropSpec<Case> {
     id: "C12",
     strategy: |tier| {
       (
-        proptest::collection::vec(tsgen::raw_package(tier.pick(8, 12)), 1..=2),
+        proptest::collection::vec(tsgen::raw_package(tier.pick(8, 12)), 1..=3),
         proptest::bool::weighted(0.4),
         proptest::collection::vec(
           prop_oneof![
             2 => Just(Step::FastCheck),
-            3 => (0..2u8, any::<u16>(), 0..3u8).prop_map(|(pkg, decl, what)| Step::Edit { pkg, decl, what }),
+            3 => (0..3u8, any::<u16>(), 0..4u8).prop_map(|(pkg, decl, what)| Step::Edit { pkg, decl, what }),
           ],
           1..=5,
         ),
+        0..3u8,
+        prop_oneof![3 => Just(0u8), 1 => Just(2u8), 1 => Just(4u8), 1 => Just(6u8)],
       )
-        .prop_map(|(pkgs, cross_star, mut history)| {
+        .prop_map(|(pkgs, cross_star, mut history, cross_kind, root_skip)| {
           // every history starts and ends with a fast-check step
           history.insert(0, Step::FastCheck);
           history.push(Step::FastCheck);
@@ -50,13 +61,15 @@ pub fn spec() -> PropSpec<Case> {
             pkgs,
             cross_star,
             history,
+            cross_kind,
+            root_skip,
           }
         })
         .boxed()
     },
     check,
     cases: |tier| tier.pick(15_000, 300_000),
-    rule: "1-2 generated packages (optionally the first re-exporting everything of the second with `export * from \"jsr:...\"`, several entrypoints) and histories of 3-7 steps over one shared cache: fast check, edit one declaration (toggle annotated / non-inferable, toggle export, change kind), rebuild, fast check again; each cached fast check is shadowed by a cache-less run and a repeated cache-less run on clones of the same graph; non-trivial = some cached step hit the cache after an edit of a traced module (a stale entry existed) or hit it warm; distinct = distinct case JSON",
+    rule: "1-3 generated packages, each optionally depending on the next (`export * from \"jsr:...\"`, a by-name re-export, or an exported alias of an imported type), each imported by the root module or reachable only through its dependent; several entrypoints; histories of 3-7 steps over one shared cache: fast check, edit (toggle annotated / non-inferable, toggle export, change kind of one declaration, toggle whether the root imports a package), rebuild, fast check again; each cached fast check is shadowed by a cache-less run and a repeated cache-less run on clones of the same graph; non-trivial = some cached step hit the cache after an edit of a traced module (a stale entry existed) or hit it warm; distinct = distinct case JSON",
     assumptions: &[
       "packages are analysed as registry packages (should_error_on_first_diagnostic = true)",
       "'public API modules' of a package are the modules that have any fast-check slot; the all-or-nothing clause is: no diagnostics anywhere in the package if any module has output, and every entrypoint carries diagnostics if none has",
@@ -137,11 +150,19 @@ fn all_or_nothing(
     let base = fc::package_base(k);
     let out_mods: Vec<&String> = obs.emitted.keys().filter(|s| s.starts_with(&base)).collect();
     let diag_mods: Vec<&String> = obs.diagnostics.keys().filter(|s| s.starts_with(&base)).collect();
-    let entrypoints: Vec<String> = pkg
-      .rec
-      .entrypoints
-      .iter()
-      .map(|e| format!("{base}{}", e.trim_start_matches('/')))
+    // the entrypoints of a package in this graph are the exports the graph
+    // uses (a package reached only through a dependent may use fewer than
+    // its manifest lists)
+    let _ = pkg;
+    let name = if k == 0 { fc::PKG_NAME.to_string() } else { format!("{}{k}", fc::PKG_NAME) };
+    let nv = deno_semver::package::PackageNv {
+      name: name.as_str().into(),
+      version: deno_semver::Version::parse_standard(fc::PKG_VERSION).unwrap(),
+    };
+    let Some(used) = graph.packages.package_exports(&nv) else { continue };
+    let entrypoints: Vec<String> = used
+      .values()
+      .map(|v| format!("{base}{}", v.trim_start_matches("./")))
       .collect();
     if !out_mods.is_empty() && !diag_mods.is_empty() {
       o.violate(
@@ -196,15 +217,23 @@ fn all_or_nothing(
   }
 }
 
-fn apply_edit(pkgs: &mut [RawPackage], pkg: u8, decl: u16, what: u8) -> Option<(usize, usize)> {
+fn apply_edit(pkgs: &mut [RawPackage], root_skip: &mut u8, pkg: u8, decl: u16, what: u8) -> Option<(usize, usize)> {
   let k = pkg as usize % pkgs.len();
+  if what % 4 == 3 {
+    // package 0 always stays imported by the root
+    if k == 0 {
+      return None;
+    }
+    *root_skip ^= 1 << k;
+    return Some((k, 0));
+  }
   let n = pkgs[k].decls.len();
   if n == 0 {
     return None;
   }
   let i = idx(decl, n);
   let d = &mut pkgs[k].decls[i];
-  match what % 3 {
+  match what % 4 {
     0 => d.explicitness = if d.explicitness == 2 { 0 } else { 2 },
     1 => d.exported = !d.exported,
     _ => d.kind = (d.kind + 1) % 7,
@@ -212,14 +241,30 @@ fn apply_edit(pkgs: &mut [RawPackage], pkg: u8, decl: u16, what: u8) -> Option<(
   Some((k, i))
 }
 
-fn build(pkgs: &[RawPackage], cross_star: bool) -> (Vec<Package>, ModuleGraph) {
+fn build(pkgs: &[RawPackage], cross_star: bool, cross_kind: u8, root_skip: u8) -> (Vec<Package>, ModuleGraph) {
   let mut built: Vec<Package> = pkgs.iter().map(tsgen::build).collect();
-  if cross_star && built.len() >= 2 {
-    let line = format!("export * from \"jsr:{}1@{}\";\n", fc::PKG_NAME, fc::PKG_VERSION);
-    built[0].files.get_mut("/mod.ts").unwrap().push_str(&line);
+  // package k depends on package k+1
+  for k in 0..built.len().saturating_sub(1) {
+    let dep = format!("jsr:{}{}@{}", fc::PKG_NAME, k + 1, fc::PKG_VERSION);
+    let offered: Vec<String> = built[k + 1]
+      .rec
+      .exports
+      .get("/mod.ts")
+      .map(|s| s.iter().filter(|n| n.starts_with('D')).cloned().collect())
+      .unwrap_or_default();
+    let line = if cross_star && k == 0 {
+      format!("export * from \"{dep}\";\n")
+    } else {
+      match (cross_kind % 3, offered.first()) {
+        (1, Some(n)) => format!("export {{ {n} as Cross{k} }} from \"{dep}\";\n"),
+        (2, Some(n)) => format!("import type {{ {n} as Imp{k} }} from \"{dep}\";\nexport type Cross{k} = Imp{k} | undefined;\n"),
+        _ => continue,
+      }
+    };
+    built[k].files.get_mut("/mod.ts").unwrap().push_str(&line);
   }
   let refs: Vec<&Package> = built.iter().collect();
-  let graph = fc::build_jsr_graph(&refs);
+  let graph = fc::build_jsr_graph_with(&refs, root_skip & !1);
   (built, graph)
 }
 
@@ -227,18 +272,19 @@ pub fn check(case: &Case, _tier: Tier) -> Outcome {
   let mut o = Outcome::default();
   let cache = MemCache::default();
   let mut raws = case.pkgs.clone();
+  let mut root_skip = case.root_skip;
   let mut edited_since_last_fc = false;
   let mut stale_or_warm = false;
   let mut fc_steps = 0;
   for step in &case.history {
     match step {
       Step::Edit { pkg, decl, what } => {
-        if apply_edit(&mut raws, *pkg, *decl, *what).is_some() {
+        if apply_edit(&mut raws, &mut root_skip, *pkg, *decl, *what).is_some() {
           edited_since_last_fc = true;
         }
       }
       Step::FastCheck => {
-        let (built, graph) = build(&raws, case.cross_star);
+        let (built, graph) = build(&raws, case.cross_star, case.cross_kind, root_skip);
         if graph.module_errors().next().is_some() {
           o.discarded = true;
           return o;
@@ -318,13 +364,14 @@ pub fn check(case: &Case, _tier: Tier) -> Outcome {
 pub fn trace(case: &Case) {
   let cache = MemCache::default();
   let mut raws = case.pkgs.clone();
+  let mut root_skip = case.root_skip;
   for step in &case.history {
     match step {
       Step::Edit { pkg, decl, what } => {
-        println!("=== edit {:?}", apply_edit(&mut raws, *pkg, *decl, *what));
+        println!("=== edit {:?} (root_skip {root_skip:b})", apply_edit(&mut raws, &mut root_skip, *pkg, *decl, *what));
       }
       Step::FastCheck => {
-        let (built, graph) = build(&raws, case.cross_star);
+        let (built, graph) = build(&raws, case.cross_star, case.cross_kind, root_skip);
         println!("=== fast check");
         for (k, b) in built.iter().enumerate() {
           for (p, t) in &b.files {
